@@ -829,6 +829,12 @@ class exists_elim(Method):
                 if name in context.ctxt.vars:
                     raise AssertionError("Instantiate exists: duplicate name %s" % name)
 
+        # The new variables stay in scope up to the closing intros line, so they
+        # must also differ from the variables introduced later in the block.
+        for item in state.prf.get_parent_proof(id).items[id.last()+1:]:
+            if item.rule == 'variable' and item.args[0] in names:
+                raise AssertionError("Instantiate exists: duplicate name %s" % item.args[0])
+
         exists_item = state.get_proof_item(prevs[0])
         exists_prop = exists_item.th.prop
         assert exists_prop.is_exists(), "exists_elim"
